@@ -179,8 +179,20 @@ pub fn run_terminal_canary<Q: Par<Item = Canary>>(p: Q, ctx: &mut Ctx, full: boo
             v.sort_unstable();
             Outcome::Bag(v)
         }
-        TermD::MinByKey(k) if full => Outcome::Opt(p.min_by_key(move |c: &Canary| c.val % k).map(|c| c.val)),
-        TermD::MaxByKey(k) if full => Outcome::Opt(p.max_by_key(move |c: &Canary| c.val % k).map(|c| c.val)),
+        TermD::MinByKey(k) if full => Outcome::Opt(
+            p.min_by_key(move |c: &Canary| {
+                crate::exec::aux_gate(crate::exec::ST_KEY, c.val);
+                c.val % k
+            })
+            .map(|c| c.val),
+        ),
+        TermD::MaxByKey(k) if full => Outcome::Opt(
+            p.max_by_key(move |c: &Canary| {
+                crate::exec::aux_gate(crate::exec::ST_KEY, c.val);
+                c.val % k
+            })
+            .map(|c| c.val),
+        ),
         TermD::Any(pd) if full => Outcome::Bool(p.any(move |c: &Canary| {
             pre(ST_PRED, c.val);
             pd.test(c.val)
